@@ -3,6 +3,7 @@
 
 #include "nmtools/meta/loop.hpp"
 #include "nmtools/meta/bits/traits/is_integer.hpp"
+#include "nmtools/meta/bits/traits/is_clipped_integer.hpp"
 #include "nmtools/meta/bits/traits/is_integral_constant.hpp"
 #include "nmtools/meta/bits/traits/is_num.hpp"
 #include "nmtools/meta/bits/traits/is_signed.hpp"
@@ -50,7 +51,24 @@ namespace nmtools::meta
         {
             [[maybe_unused]] constexpr auto l_size = sizeof(left_t);
             [[maybe_unused]] constexpr auto r_size = sizeof(right_t);
-            if constexpr (is_integer_v<left_t> && is_floating_point_v<right_t>) {
+            if constexpr (is_clipped_integer_v<left_t> && is_clipped_integer_v<right_t>) {
+                // the common type must hold the values of both ranges
+                // (picking one of them clips the values of the other)
+                using l_value_type = typename left_t::value_type;
+                using r_value_type = typename right_t::value_type;
+                using value_type   = type_t<decltype(cast(as_value_v<l_value_type>,as_value_v<r_value_type>))>;
+                constexpr auto l_contains_r = (left_t::min <= right_t::min) && (right_t::max <= left_t::max);
+                constexpr auto r_contains_l = (right_t::min <= left_t::min) && (left_t::max <= right_t::max);
+                if constexpr (l_contains_r && is_same_v<value_type,l_value_type>) {
+                    return as_value_v<left_t>;
+                } else if constexpr (r_contains_l && is_same_v<value_type,r_value_type>) {
+                    return as_value_v<right_t>;
+                } else {
+                    constexpr auto min = (left_t::min <= right_t::min) ? value_type(left_t::min) : value_type(right_t::min);
+                    constexpr auto max = (left_t::max <= right_t::max) ? value_type(right_t::max) : value_type(left_t::max);
+                    return as_value_v<clipped_integer_t<value_type,min,max>>;
+                }
+            } else if constexpr (is_integer_v<left_t> && is_floating_point_v<right_t>) {
                 return as_value_v<right_t>;
             } else if constexpr (is_floating_point_v<left_t> && is_integer_v<right_t>) {
                 return as_value_v<left_t>;
